@@ -15,14 +15,14 @@ open Std
 namespace DD
 
 /-- `_image(-1, v, ...)` returns FALSE at once -/
-theorem imageF_left_false (umap vmap : Option (List (Int × Int))) (Q : List Nat) (fa : Bool)
-    (f : Nat) (v : Int) (cache : HashMap (Int × Int) Int) (m : Mgr) :
-    imageF umap vmap Q fa (f+1) (-1) v cache m = (.ok (-1, cache), m) := by
+theorem imageF_left_false (umap vmap : Option (List (Int × Int))) (ubad vbad : List Int) (Q : List Nat)
+    (fa : Bool) (f : Nat) (v : Int) (cache : HashMap (Int × Int) Int) (m : Mgr) :
+    imageF umap vmap ubad vbad Q fa (f+1) (-1) v cache m = (.ok (-1, cache), m) := by
   unfold imageF; simp
 
 /-- the run of `_image` on the F5 witness: it succeeds and returns a reference of `¬x` -/
 theorem imgM_F5_run :
-    ∃ r c m', imageF none (some [(0, 1)]) [1] false 8 (-4) (-3) {} imgM = (.ok (r, c), m') ∧
+    ∃ r c m', imageF none (some [(0, 1)]) [] [] [1] false 8 (-4) (-3) {} imgM = (.ok (r, c), m') ∧
       ∀ a, den m'.tbl r a = !a 0 := by
   have hW := imgM_inv.wf.toWF
   -- innermost call `(1, xp)`: covered by the specification (`xp` is no rename target)
@@ -53,9 +53,9 @@ theorem imgM_F5_run :
     rfl
   have hoff2 : m2.lastLen = none := by rw [hp2.frame.lastLen]; exact hoff1
   -- the call `(¬xp, x xor xp)`
-  have hpcall : imageF none (some [(0, 1)]) [1] false 7 (-2) (-3) {} imgM =
+  have hpcall : imageF none (some [(0, 1)]) [] [] [1] false 7 (-2) (-3) {} imgM =
       (.ok (r2, c1.insert (-2, -3) r2), m2) := by
-    show imageF none (some [(0, 1)]) [1] false (6+1) (-2) (-3) {} imgM = _
+    show imageF none (some [(0, 1)]) [] [] [1] false (6+1) (-2) (-3) {} imgM = _
     unfold imageF
     have hA : ¬ ((-2 : Int) = -1 ∨ (-3 : Int) = -1) := by decide
     have hB : ¬ ((-2 : Int) = 1 ∧ (-3 : Int) = 1) := by decide
@@ -66,7 +66,7 @@ theorem imgM_F5_run :
     have hc1 : topCofactorI imgM.tbl (-2) 1 = .ok (1, -1) := by rfl
     have hc2 : topCofactorI imgM.tbl (-3) (((0 : Nat) : Int) + 1 - 1) = .ok (2, -2) := by rfl
     have hq : (0 : Int) ≤ 1 ∧ [1].contains (1 : Int).toNat = true := by decide
-    simp only [hA, hB, if_false, HashMap.getElem?_empty, h1, h2, hz, hi, hc1, hc2, e1,
+    simp only [hA, hB, if_false, List.contains_nil, Bool.false_eq_true, HashMap.getElem?_empty, h1, h2, hz, hi, hc1, hc2, e1,
       imageF_left_false, hq, and_self, if_true, Bool.false_eq_true, e2]
   -- the top call `(¬x ∧ ¬xp, x xor xp)`: level 0 is not quantified
   have hn1 : m1.nvars = 2 := by
@@ -78,7 +78,7 @@ theorem imgM_F5_run :
   obtain ⟨r4, m4, e4, hp4⟩ := ite_spec_off m3 hs3.inv (hs3.off hoff2) g (-1) r2 hg3
     (mem_neg_one _) (hs3.ext.mem hp2.mem)
   refine ⟨r4, (c1.insert (-2, -3) r2).insert (-4, -3) r4, m4, ?_, ?_⟩
-  · show imageF none (some [(0, 1)]) [1] false (7+1) (-4) (-3) {} imgM = _
+  · show imageF none (some [(0, 1)]) [] [] [1] false (7+1) (-4) (-3) {} imgM = _
     unfold imageF
     have hA : ¬ ((-4 : Int) = -1 ∨ (-3 : Int) = -1) := by decide
     have hB : ¬ ((-4 : Int) = 1 ∧ (-3 : Int) = 1) := by decide
@@ -90,7 +90,7 @@ theorem imgM_F5_run :
     have hc2 : topCofactorI imgM.tbl (-3) (((0 : Nat) : Int) + 0 - 1) = .ok (-3, -3) := by rfl
     have hq : ¬ ((0 : Int) ≤ 0 ∧ [1].contains (0 : Int).toNat = true) := by decide
     have hm : mapLvl none (0 : Int) = ((0 : Nat) : Int) := by decide
-    simp only [hA, hB, if_false, HashMap.getElem?_empty, h1, h2, hi, hz, hc1, hc2, hpcall,
+    simp only [hA, hB, if_false, List.contains_nil, Bool.false_eq_true, HashMap.getElem?_empty, h1, h2, hi, hz, hc1, hc2, hpcall,
       imageF_left_false, hq, hm, e3, e4]
   · intro a
     rw [hp4.den a, hd3 a, den_neg_one, den_ext hs3.ext hp2.inv.wf.toWF r2 a hp2.mem, hr2t a]
